@@ -93,10 +93,45 @@ theorem C19_call_after_map {α : Type} (p : Partial α) (f : α → α) :
       ((partialFlatten p).1.1.map f, (partialFlatten p).1.2.map fun kv => (kv.1, f kv.2))).args = p.args.map f := by
   cases p; simp [partialUnflatten, partialFlatten]
 
+/-- the partition depends on the `(name, init, pytree_node)` triples in field order only: decorator
+options (`slots`, `frozen`, `kw_only`, `order`), per-field `kw_only` / defaults / inheritance and the
+route (decorator or `make_dataclass`) do not change it.  (Pinned tree before the `fix:` of
+`make_dataclass`: false for `via = 1` — the second application of `dataclasses.dataclass` dropped the
+`Field` objects, so `pytree_node=False` fields became children.) -/
+theorem C19_partition_options_irrelevant (c c' : DcCall)
+    (hf : c.fields.map (fun f => (f.name, f.init, f.pytreeNode)) =
+          c'.fields.map (fun f => (f.name, f.init, f.pytreeNode)))
+    (h1 : c.alreadyDecorated = c'.alreadyDecorated) (h2 : c.nsEmpty = c'.nsEmpty)
+    (h3 : c.isClass = c'.isClass) : dcPartition c = dcPartition c' := by
+  have key : ∀ (g : String × Bool × Bool → Bool) (l : List FieldSpec),
+      (l.map (fun f => (f.name, f.init, f.pytreeNode))).filter g =
+        (l.filter (fun f => g (f.name, f.init, f.pytreeNode))).map (fun f => (f.name, f.init, f.pytreeNode)) := by
+    intro g l
+    induction l with
+    | nil => rfl
+    | cons x xs ih =>
+      simp only [List.map_cons, List.filter_cons]
+      split <;> simp [ih]
+  have hany : c.fields.any (fun f => f.pytreeNode && !f.init) = c'.fields.any (fun f => f.pytreeNode && !f.init) := by
+    have := congrArg (fun l => l.any (fun t : String × Bool × Bool => t.2.2 && !t.2.1)) hf
+    simpa [List.any_map, Function.comp_def] using this
+  have hch : (c.fields.filter (·.pytreeNode)).map (·.name) = (c'.fields.filter (·.pytreeNode)).map (·.name) := by
+    have := congrArg (fun l => (l.filter (fun t : String × Bool × Bool => t.2.2)).map (·.1)) hf
+    simp only [key, List.map_map] at this
+    simpa [Function.comp_def] using this
+  have hmd : (c.fields.filter (fun f => !f.pytreeNode && f.init)).map (·.name) =
+      (c'.fields.filter (fun f => !f.pytreeNode && f.init)).map (·.name) := by
+    have := congrArg (fun l => (l.filter (fun t : String × Bool × Bool => !t.2.2 && t.2.1)).map (·.1)) hf
+    simp only [key, List.map_map] at this
+    simpa [Function.comp_def] using this
+  unfold dcPartition
+  rw [hany, h1, h2, h3, hch, hmd]
+
 /-! ### non-vacuity -/
 
 def C19_demo : DcCall :=
-  { fields := [⟨"x", true, true⟩, ⟨"tag", true, false⟩, ⟨"y", true, true⟩, ⟨"norm", false, false⟩],
+  { fields := [{ name := "x", init := true, pytreeNode := true }, { name := "tag", init := true, pytreeNode := false },
+      { name := "y", init := true, pytreeNode := true }, { name := "norm", init := false, pytreeNode := false, dflt := 1 }],
     alreadyDecorated := false, nsEmpty := false, isClass := true }
 
 example : dcPartition C19_demo = .ok (["x", "y"], ["tag"]) := by rfl
